@@ -515,6 +515,15 @@ func (in *Interp) lock(g *goroutine, p *value, write bool) {
 			mode = "W"
 		}
 		for h, hm := range g.held {
+			if h == l && hm == "R" && !write {
+				// recursive read locking: "if a goroutine holds a RWMutex for reading and another goroutine might call
+				// Lock, no goroutine should expect to be able to acquire a read lock until the initial read lock is
+				// released" (sync.RWMutex) - a writer arriving in between wedges both
+				key := in.role + "|" + l.name + ":R->R"
+				if _, ok := in.w.lockEdges[key]; !ok {
+					in.w.lockEdges[key] = &lockEdge{Role: in.role, Held: l.name, HeldMode: "R", Want: l.name, WantMode: "R"}
+				}
+			}
 			if h != l {
 				key := in.role + "|" + h.name + ":" + hm + "->" + l.name + ":" + mode
 				if _, ok := in.w.lockEdges[key]; !ok {
@@ -581,9 +590,24 @@ type lockEdge struct {
 func lockCycles(edges []*lockEdge) []string {
 	var out []string
 	seen := map[string]bool{}
+	// recursive read locks: dangerous as soon as any role write-locks the same mutex
+	for _, a := range edges {
+		if a.Held != a.Want || a.HeldMode != "R" || a.WantMode != "R" {
+			continue
+		}
+		for _, b := range edges {
+			if (b.Want == a.Held && b.WantMode == "W") || (b.Held == a.Held && b.HeldMode == "W") {
+				k := "rr:" + a.Held
+				if !seen[k] {
+					seen[k] = true
+					out = append(out, fmt.Sprintf("%s holds %s(R) wants %s(R); %s holds %s(%s) wants %s(%s)", a.Role, a.Held, a.Want, b.Role, b.Held, b.HeldMode, b.Want, b.WantMode))
+				}
+			}
+		}
+	}
 	for _, a := range edges {
 		for _, b := range edges {
-			if a == b || a.Held != b.Want || a.Want != b.Held {
+			if a == b || a.Held != b.Want || a.Want != b.Held || a.Held == a.Want || b.Held == b.Want {
 				continue
 			}
 			if roleGroup(a.Role) == roleGroup(b.Role) && strings.HasPrefix(a.Role, "session-") {
